@@ -45,7 +45,7 @@ ASSUMPTIONS = [
     "key/compress/overwrite are passed for .npz targets only",
 ]
 
-FNAMES = {"npy": ["stats.npy"], "npz": ["stats.npz"], "raw": ["stats.bin", "stats", "stats.dat"]}
+FNAMES = {"npy": ["stats.npy"], "npz": ["stats.npz"], "raw": ["stats.bin", "stats", "stats.dat", "cmvn.NPY", "Cmvn.Npz", "stats.npy.bak"]}
 FOREIGN = ["foo", "bar", "arr_0", "arr_1", "arr_3"]
 USER_KEYS = [None, None, None, "stats", "k", "arr_7"]
 
@@ -157,7 +157,7 @@ def _data_specs():
 
 def _save_ops(kind):
     if kind != "npz":
-        return st.just({"op": "save"})
+        return st.fixed_dictionaries({"op": st.just("save"), "resave": st.sampled_from([False, False, True])})
     return st.fixed_dictionaries(
         {
             "op": st.just("save"),
@@ -264,6 +264,15 @@ def check_reload(case):
             )
             require(bool(loaded.have_stats), "{}: the reloaded object reports no statistics", how)
             compare_transforms(s, loaded, spec, case.get("apply_seed", 0), how)
+            if op.get("resave") and kind != "npz":
+                # the reloaded object writes its statistics back to the file it came from (still alive), and a
+                # third object is loaded from that file
+                call(how + "; reloaded.save(same path)", loaded.save, path)
+                again = call(how + "; Standardize(rfilename) after the reloaded object saved", Standardize, path, norm_var=nv, **rk)
+                require(bool(again.have_stats), "{}: no statistics after the reloaded object saved to its own file", how)
+                compare_transforms(s, again, spec, case.get("apply_seed", 0), how + " (re-saved by the reloaded object)")
+                compare_transforms(s, loaded, spec, case.get("apply_seed", 0), how + " (the reloaded object after saving)")
+                labels.append("resaved-by-reloaded")
             n_saves += 1
             if existed:
                 labels.append("save-on-existing")
